@@ -77,7 +77,17 @@ theorem ninv_exec_gen : ∀ (evs pre : List TEv) (s0 s : State), NInv pre s0 →
 
 @[simp] theorem failTo_replies (k : Caller) : (failTo k).replies = k.replies := rfl
 @[simp] theorem nextReq_replies (k : Caller) : (nextReq k).replies = k.replies := by unfold nextReq; split <;> rfl
-@[simp] theorem afterConnected_replies (k : Caller) : (afterConnected k).replies = k.replies := rfl
+@[simp] theorem afterConnected_replies (s : State) (k : Caller) : (afterConnected s k).replies = k.replies := by
+  unfold afterConnected; split <;> split <;> (try split) <;> simp
+@[simp] theorem rcFail_replies (k : Caller) : (rcFail k).replies = k.replies := by unfold rcFail; split <;> simp
+@[simp] theorem afterIdent_replies (s : State) (k : Caller) : (afterIdent s k).replies = k.replies := by
+  unfold afterIdent; split <;> (try split) <;> simp
+@[simp] theorem startIdent_replies (s : State) (k : Caller) : (startIdent s k).replies = k.replies := by
+  unfold startIdent; split <;> simp
+@[simp] theorem idNext_replies (cfg : Cfg) (k : Caller) : (idNext cfg k).replies = k.replies := by
+  unfold idNext; split <;> (try split) <;> (try split) <;> simp
+@[simp] theorem toIdFlush_replies (s : State) (k : Caller) : (toIdFlush s k).replies = k.replies := by unfold toIdFlush; split <;> simp
+@[simp] theorem toIdEndFail_replies (k : Caller) : (toIdEndFail k).replies = k.replies := rfl
 @[simp] theorem toFlush_replies (s : State) (k : Caller) : (toFlush s k).replies = k.replies := by unfold toFlush; split <;> simp
 
 set_option maxHeartbeats 16000000 in
@@ -87,10 +97,14 @@ theorem step_replies (s s' : State) (t c : Nat) (e : Ev) (h : stepCaller s t c e
     (∃ x kd rq, e = .call x kd rq ∧ (s'.callers c).replies = []) ∨
     ((s.callers c).pc = .read ∧ (s'.callers c).pc = .relI) ∨
     (∃ x conn n d l r, e = .send x conn n d ∧ complete s.cfg (current (s.callers c)) [] = some (l, r) ∧
-      (s'.callers c).replies = (s.callers c).replies ++ [l] ∧ s.conn = some conn) := by
+      (s'.callers c).replies = (s.callers c).replies ++ [l] ∧ s.conn = some conn) ∨
+    ((∃ x n, e = .more x n) ∨ (s.callers c).pc = .readX) := by
   step_arms
   all_goals (try (simp only [setC_same]))
   all_goals (first
+    | (right; right; right; right; left; exact ⟨_, _, rfl⟩)
+    | (right; right; right; right; right; exact hpc)
+    | (right; right; right; right; right; trivial)
     | (left; simp; done)
     | (left; split <;> simp; done)
     | (right; left; exact ⟨_, _, _, rfl, by simp⟩)
@@ -98,11 +112,12 @@ theorem step_replies (s s' : State) (t c : Nat) (e : Ev) (h : stepCaller s t c e
     | (right; right; left; exact ⟨hpc, by simp⟩)
     | (right; right; left; exact ⟨rfl, by simp⟩)
     | (right; right; left; simp; done)
-    | (right; right; right; exact ⟨_, _, _, _, _, _, rfl, ‹_›, by simp, hg.2.2.1⟩)
+    | (right; right; right; left; exact ⟨_, _, _, _, _, _, rfl, ‹_›, by simp, hg.2.2.1⟩)
     | skip)
 
 
-def NoConnectBetween (log : Log) (p w : Nat) : Prop := ∀ m, p < m → m < w → okConnectBy log m = none
+def NoConnectBetween (log : Log) (p w : Nat) : Prop :=
+  ∀ m, p < m → m < w → okConnectBy log m = none ∧ hcloseAt log m = false
 
 /-- reply `l` of caller `c` is framed from bytes that arrived after one of `c`'s own sends since which `c` has not
 returned (unless the connection was replaced in between) -/
@@ -127,10 +142,10 @@ theorem freshReply_extend {cfg : Cfg} {log : Log} {e : TEv} {c : Nat} {l : Bytes
   apply himp
   intro m h1 h2
   have := hnc m h1 h2
-  simpa [okConnectBy, evAt_append_lt log e m (by omega : m < log.length)] using this
+  simpa [okConnectBy, hcloseAt, evAt_append_lt log e m (by omega : m < log.length)] using this
 
 structure QInv (cfg : Cfg) (log : Log) (s : State) : Prop where
-  q : ∀ c l, l ∈ (s.callers c).replies → (s.callers c).pc ≠ .idle → FreshReply cfg log c l
+  q : NoMore log → ∀ c l, l ∈ (s.callers c).replies → (s.callers c).pc ≠ .idle → FreshReply cfg log c l
 
 theorem step_call_replies (s s' : State) (t c x : Nat) (kd : Kind) (rq : List Req)
     (h : stepCaller s t c (.call x kd rq) = some s') : (s'.callers c).replies = [] := by
@@ -138,13 +153,16 @@ theorem step_call_replies (s s' : State) (t c x : Nat) (kd : Kind) (rq : List Re
   obtain ⟨_, rfl⟩ := h
   cases kd <;> simp
 
-theorem qinv_step {cfg : Cfg} {log : Log} {s s' : State} (e : TEv) (hcfg : s.cfg = cfg) (hq : QInv cfg log s)
+theorem qinv_step {cfg : Cfg} {log : Log} {s s' : State} (e : TEv) (hcfg : s.cfg = cfg) (hi : Inv log s)
+    (hq0 : QInv cfg log s)
     (hr : RInv log s) (hn : NInv log s) (h : step s e = some s') : QInv cfg (log ++ [e]) s' := by
-  refine ⟨fun c l hl hp => ?_⟩
+  refine ⟨fun hnm c l hl hp => ?_⟩
+  obtain ⟨hnm0, hnme⟩ := noMore_restrict hnm
+  have hq : ∀ c l, l ∈ (s.callers c).replies → (s.callers c).pc ≠ .idle → FreshReply cfg log c l := hq0.q hnm0
   have keep : s'.callers c = s.callers c → isRetOf c (some e.ev) = false → FreshReply cfg (log ++ [e]) c l := by
     intro hsame hnret
     rw [hsame] at hl hp
-    exact freshReply_extend (hq.q c l hl hp) hnret
+    exact freshReply_extend (hq c l hl hp) hnret
   cases hwho : e.ev.who with
   | none =>
     refine keep (by rw [(step_env_callers hwho h).1]) ?_
@@ -167,9 +185,14 @@ theorem qinv_step {cfg : Cfg} {log : Log} {s s' : State} (e : TEv) (hcfg : s.cfg
           rw [hev] at h
           rw [step_call_replies _ s' e.t c x kd rq h] at hl
           simp at hl
-        · rcases step_replies _ s' e.t c e.ev h with hsame | ⟨x, kd, rq, hev, hnil⟩ | ⟨hrd, hrel⟩ | ⟨x, conn, n, d, l0, r0, hev, hcomp, hrep, hconn⟩
+        · rcases step_replies _ s' e.t c e.ev h with hsame | ⟨x, kd, rq, hev, hnil⟩ | ⟨hrd, hrel⟩ | ⟨x, conn, n, d, l0, r0, hev, hcomp, hrep, hconn⟩ | hmore
+          rotate_left 4
+          · exfalso
+            rcases hmore with ⟨x, n, hx⟩ | hx
+            · exact hnme x n hx
+            · exact hi.nx hnm0 c hx
           · rw [hsame] at hl
-            exact freshReply_extend (hq.q c l hl hidle) hnret
+            exact freshReply_extend (hq c l hl hidle) hnret
           · rw [hnil] at hl; simp at hl
           · -- a reply is completed in the read loop
             obtain ⟨_, hcase⟩ := step_read _ s' e.t c e.ev h hrd
@@ -177,7 +200,7 @@ theorem qinv_step {cfg : Cfg} {log : Log} {s s' : State} (e : TEv) (hcfg : s.cfg
             · rw [hrel] at hp'; simp at hp'
             · rw [hrep] at hl
               rcases List.mem_append.1 hl with hold | hnew
-              · exact freshReply_extend (hq.q c l hold hidle) hnret
+              · exact freshReply_extend (hq c l hold hidle) hnret
               · simp only [List.mem_singleton] at hnew
                 subst hnew
                 obtain ⟨i, conn, n, hls, himp⟩ := hr.r c hrd
@@ -190,7 +213,7 @@ theorem qinv_step {cfg : Cfg} {log : Log} {s s' : State} (e : TEv) (hcfg : s.cfg
                 have hno : NoConnectAfter log i := by
                   intro m h1 h2
                   have := hnc m h1 h2
-                  simpa [okConnectBy, evAt_append_lt log e m h2] using this
+                  simpa [okConnectBy, hcloseAt, evAt_append_lt log e m h2] using this
                 obtain ⟨_, heq⟩ := himp hno
                 rw [← heq]
                 simp only at hchan hcomp
@@ -201,7 +224,7 @@ theorem qinv_step {cfg : Cfg} {log : Log} {s s' : State} (e : TEv) (hcfg : s.cfg
           · -- a reply of length 0 is complete with the send
             rw [hrep] at hl
             rcases List.mem_append.1 hl with hold | hnew
-            · exact freshReply_extend (hq.q c l hold hidle) hnret
+            · exact freshReply_extend (hq c l hold hidle) hnret
             · simp only [List.mem_singleton] at hnew
               subst hnew
               have hx : x = c := by rw [hev] at hwho; simpa [Ev.who] using hwho
@@ -218,23 +241,23 @@ theorem qinv_step {cfg : Cfg} {log : Log} {s s' : State} (e : TEv) (hcfg : s.cfg
         | false => rfl
         | true => exact absurd (who_ret hwho hb) hcc
 
-theorem qinv_exec_gen {cfg : Cfg} : ∀ (evs pre : List TEv) (s0 s : State), TInv cfg pre s0 → Inv pre s0 → RInv pre s0 →
+theorem qinv_exec_gen {cfg : Cfg} : ∀ (evs pre : List TEv) (s0 s : State), s0.cfg = cfg → Inv pre s0 → RInv pre s0 →
     NInv pre s0 → QInv cfg pre s0 → exec s0 evs = some s → QInv cfg (pre ++ evs) s
   | [], pre, s0, s, _, _, _, _, hv, h => by simp [exec] at h; subst h; simpa using hv
-  | e :: es, pre, s0, s, ht, hi, hr, hn, hv, h => by
+  | e :: es, pre, s0, s, hc, hi, hr, hn, hv, h => by
     simp only [exec] at h
     cases hst : step s0 e with
     | none => simp [hst] at h
     | some s1 =>
       simp only [hst] at h
-      have := qinv_exec_gen es (pre ++ [e]) s1 s (tinv_step e ht hst) (inv_step e hi hst) (rinv_step e hi hr hst)
-        (ninv_step e hn hst) (qinv_step e ht.cfg_eq hv hr hn hst) h
+      have := qinv_exec_gen es (pre ++ [e]) s1 s (by rw [step_keeps_cfg hst]; exact hc) (inv_step e hi hst)
+        (rinv_step e hi hr hst) (ninv_step e hn hst) (qinv_step e hc hi hv hr hn hst) h
       simpa using this
 
 theorem qinv_exec (cfg : Cfg) (cbs : List Nat) (evs : List TEv) (s : State)
     (h : exec { cfg := cfg, cbsReg := cbs } evs = some s) : QInv cfg evs s := by
   have hn0 : NInv [] { cfg := cfg, cbsReg := cbs } := ⟨fun c hp => by simp at hp⟩
-  have hq0 : QInv cfg [] { cfg := cfg, cbsReg := cbs } := ⟨fun c l hl => by simp at hl⟩
-  simpa using qinv_exec_gen evs [] _ s (tinv_init cfg cbs) (inv_init cfg cbs) (rinv_init cfg cbs) hn0 hq0 h
+  have hq0 : QInv cfg [] { cfg := cfg, cbsReg := cbs } := ⟨fun _ c l hl => by simp at hl⟩
+  simpa using qinv_exec_gen evs [] _ s rfl (inv_init cfg cbs) (rinv_init cfg cbs) hn0 hq0 h
 
 end Frappy.Comm
